@@ -179,6 +179,16 @@ func c20Pairs(w *core.W, j int) {
 				}
 			}
 		}
+		if strings.HasPrefix(l.Name, "TYPE") && len(l.Fields) == 1 && l.Type < 65535 && model.Layouts[l.Type+1] == nil && model.Layouts[l.Type] == nil {
+			// two unknown types (both decode into the same generic struct) with identical RDATA
+			v := cloneRec(base)
+			v.Type = l.Type + 1
+			v.L = model.Unknown(v.Type)
+			variants = append(variants, struct {
+				name string
+				r    *model.Rec
+			}{"type-of-unknown", v})
+		}
 		cl := cloneRec(base)
 		cl.Class ^= 2
 		if l.Type != 41 && l.Type != 250 {
@@ -230,6 +240,60 @@ func c20Pairs(w *core.W, j int) {
 			})
 			if want {
 				equalSet = append(equalSet, b)
+			}
+		}
+		// owners (and embedded names) that differ in one octet by 0x20 where neither octet is a letter
+		if l.Type != 41 && l.Type != 250 {
+			p1 := cloneRec(base)
+			p1.Owner = model.Name{[]byte("ho[st]^`_x"), []byte("example")}
+			p2 := cloneRec(p1)
+			pos := []int{2, 5, 6, 7, 8}[g.R.IntN(5)]
+			p2.Owner[0][pos] ^= 0x20
+			ra, rb := fromWire(p1), fromWire(p2)
+			if ra != nil && rb != nil {
+				w.Eval(1)
+				w.Cover("variant", "owner-0x20-nonletter")
+				witp := map[string]any{"type": l.Name, "a": hx(p1.Wire()), "b": hx(p2.Wire()), "variant": "owner-0x20-nonletter"}
+				w.Guard("IsDuplicate", witp, func() {
+					if dns.IsDuplicate(ra, rb) || dns.IsDuplicate(rb, ra) {
+						w.Violation("C20/is-true-want-false/"+l.Name+"/owner-0x20-nonletter", fmt.Sprintf("records whose owners differ (%q vs %q) are reported as duplicates", p1.Owner.Pres(), p2.Owner.Pres()), witp)
+					}
+				})
+			}
+			if v, ok := caseVariant(g, base, 1); ok { // the type has embedded names: the same inside RDATA
+				_ = v
+				q1 := cloneRec(base)
+				changed := false
+				for i, val := range q1.Vals {
+					if n, ok := val.(model.Name); ok && len(n) > 0 && !changed {
+						nn := n.Clone()
+						nn[0] = []byte("na[me]^`")
+						q1.Vals[i] = nn
+						changed = true
+					}
+				}
+				if changed {
+					q1.Fixup()
+					q2 := cloneRec(q1)
+					for i, val := range q2.Vals {
+						if n, ok := val.(model.Name); ok && len(n) > 0 && string(n[0]) == "na[me]^`" {
+							nn := n.Clone()
+							nn[0][2] ^= 0x20
+							q2.Vals[i] = nn
+							break
+						}
+					}
+					q2.Fixup()
+					ra, rb := fromWire(q1), fromWire(q2)
+					if ra != nil && rb != nil && c20Key(q1) != c20Key(q2) {
+						w.Eval(1)
+						w.Cover("variant", "rdata-name-0x20-nonletter")
+						witq := map[string]any{"type": l.Name, "a": hx(q1.Wire()), "b": hx(q2.Wire()), "variant": "rdata-name-0x20-nonletter"}
+						if dns.IsDuplicate(ra, rb) || dns.IsDuplicate(rb, ra) {
+							w.Violation("C20/is-true-want-false/"+l.Name+"/rdata-name-0x20-nonletter", "records whose embedded names differ by 0x20 in a non-letter are reported as duplicates", witq)
+						}
+					}
+				}
 			}
 		}
 		// transitivity over the equal variants
